@@ -7,6 +7,8 @@ seqspec = {
   "perm":  [ints]                                            insertion order for "abs_ins" (any list; indices are taken modulo)
   "pad":   int | None,                                       pad() afterwards
   "extra_abs": [["on", ch, pitch, vel, tick] | ["off", ch, pitch, tick], ...]   ill-formed decoration (not part of spec_events)
+  "shift": int                                               every tick of notes and meta events is moved by this many ticks (a long
+                                                             leading rest: large absolute tick values)
   "off_vel": [int | None, ...]                              release velocities of the note-offs (cyclic)
   "double": None | "self" | "fresh"                         the sequence concatenated with itself (shared message objects)
   "post":  None | "normalise" | "refresh" | "read_abs" | "read_rel"     leaves the object in a different freshness state
@@ -14,8 +16,8 @@ seqspec = {
 """
 from pbt.sut import Message, MT, Sequence, RelativeSequence, AbsoluteSequence, Key
 
-_ORDER = {MT.KEY_SIGNATURE: 0, MT.TIME_SIGNATURE: 1, MT.CONTROL_CHANGE: 2, MT.PROGRAM_CHANGE: 3, MT.NOTE_OFF: 4,
-          MT.NOTE_ON: 5}
+_ORDER = {MT.SEQUENCE_CONTROL: -1, MT.KEY_SIGNATURE: 0, MT.TIME_SIGNATURE: 1, MT.CONTROL_CHANGE: 2, MT.PROGRAM_CHANGE: 3,
+          MT.NOTE_OFF: 4, MT.NOTE_ON: 5}
 
 
 def meta_message(e):
@@ -28,6 +30,8 @@ def meta_message(e):
     if kind == "cc":
         return Message(message_type=MT.CONTROL_CHANGE, channel=e[4] if len(e) > 4 else 0, time=t, control=e[2],
                        velocity=e[3])
+    if kind == "sc":
+        return Message(message_type=MT.SEQUENCE_CONTROL, channel=e[2] if len(e) > 2 else 0, time=t)
     if kind == "pc":
         return Message(message_type=MT.PROGRAM_CHANGE, channel=e[3] if len(e) > 3 else 0, time=t, program=e[2])
     raise ValueError(e)
@@ -38,13 +42,17 @@ def abs_messages(spec):
     library's tie convention (off before on of the same key on one tick)"""
     msgs = []
     off_vel = spec.get("off_vel")
+    shift = spec.get("shift", 0)
     for i, (ch, p, on, off, v) in enumerate(spec.get("notes", [])):
+        on, off = on + shift, off + shift
         msgs.append(Message(message_type=MT.NOTE_ON, channel=ch, note=p, velocity=v, time=on))
         # hand-built note-offs may carry a release velocity (the oracle's event tuples ignore it)
         msgs.append(Message(message_type=MT.NOTE_OFF, channel=ch, note=p, time=off,
                             velocity=off_vel[i % len(off_vel)] if off_vel else None))
     for e in spec.get("meta", []):
-        msgs.append(meta_message(e))
+        m = meta_message(e)
+        m.time += shift
+        msgs.append(m)
     msgs.sort(key=lambda m: (m.time, _ORDER[m.message_type], m.channel, m.note or 0))
     return msgs
 
